@@ -199,7 +199,9 @@ func (z *BigInt) updateInner(src *big.Int) {
 		// Set or unset the negative sentinel, according to the argument's sign.
 		// We use unsafe because (*big.Int).Sign is too complex and prevents
 		// this method from being inlined.
-		if (*intStruct)(unsafe.Pointer(src)).neg {
+		// (a zero is never negative, whatever sign the argument carries: a
+		// gob-decoded big.Int can be a negative zero).
+		if (*intStruct)(unsafe.Pointer(src)).neg && len(bits) > 0 {
 			z._inner = negSentinel
 		} else {
 			z._inner = nil
@@ -612,6 +614,10 @@ func (z *BigInt) GobDecode(buf []byte) error {
 	zi := z.inner(&tmp1)
 	if err := zi.GobDecode(buf); err != nil {
 		return err
+	}
+	// A gob can encode a negative zero; a zero BigInt is never negative.
+	if zi.Sign() == 0 {
+		zi.Abs(zi)
 	}
 	z.updateInner(zi)
 	return nil
